@@ -814,7 +814,19 @@ impl World {
                     return Err(format!("action not enabled in the harness: {}", a.line()));
                 }
                 if !self.sched.resume(*i, *oc) {
-                    return Err(format!("HANG: op {} did not come back after `{}`", i, a.line()));
+                    // blocked on the slots mutex that a paused operation owns (the model takes no
+                    // lock in this step, so this is a correspondence break), or really hung?
+                    let held = self.pool.verif_snapshot(|_, _| {}).slots.is_none();
+                    return Err(match self.lock_owner() {
+                        Some(j) if j != *i && held => format!(
+                            "BLOCKED: op {} did not come back after `{}`: it waits for the slots mutex, which op {} holds at `{}` - the model takes no lock in this step",
+                            i,
+                            a.line(),
+                            j,
+                            self.sched.op(j).label
+                        ),
+                        _ => format!("HANG: op {} did not come back after `{}`", i, a.line()),
+                    });
                 }
                 *i
             }
